@@ -85,6 +85,20 @@ where
     }
 }
 
+impl<F: Future> Drop for JoinAll<F> {
+    fn drop(&mut self) {
+        // The queue was built from an iterator and nothing is ever pushed, so slot `i` is vacant
+        // exactly when future `i` has completed, which is exactly when `output[i]` was written.
+        // Once the output has been handed out, `self.output` is empty.
+        for (i, slot) in self.output.iter_mut().enumerate() {
+            if self.queue.tasks.get(i).is_none() {
+                // SAFETY: see above, this entry is init and is dropped only here.
+                unsafe { slot.assume_init_drop() };
+            }
+        }
+    }
+}
+
 impl<F: Future> Future for JoinAll<F> {
     type Output = Vec<F::Output>;
 
